@@ -58,6 +58,9 @@ def grad(val, tens, core_indices = None):
     Returns:
         list[torch.tensor]: the list of cores representing the derivative of the expression w.r.t the tensor.
     """
+    # gradients of an earlier call are not added to this one (backward accumulates into .grad)
+    for i in (range(len(tens.cores)) if core_indices is None else core_indices):
+        tens.cores[i].grad = None
     val.retain_grad()
     val.backward()
     if core_indices == None:
@@ -81,6 +84,10 @@ def grad_list(val, tensors, all_in_one = True):
     Returns:
         list[list[torchtt.TT]]: the resulting derivatives.
     """
+    # gradients of an earlier call are not added to this one (backward accumulates into .grad)
+    for t in tensors:
+        for c in t.cores:
+            c.grad = None
     val.backward()
     cores_list = []
     if all_in_one:
